@@ -3,7 +3,10 @@
 import glob, json, os
 V = os.path.dirname(os.path.dirname(os.path.abspath(__file__)))
 rows = []
-for d in sorted(glob.glob(os.path.join(V, 'seeded', '*'))):
+def _key(d):
+    b = os.path.basename(d).split('-')
+    return (b[0], int(b[1]) if len(b) > 1 and b[1].isdigit() else 0)
+for d in sorted(glob.glob(os.path.join(V, 'seeded', '*')), key=_key):
     m = json.load(open(os.path.join(d, 'meta.json')))
     if 'what' not in m: continue
     rows.append((os.path.basename(d), m))
